@@ -111,6 +111,17 @@ def work_forms(p):
             e2 = float(np.abs(se3.T_from_taa(t.gTAA().reshape(6)) - E).max()) / s
             if not (e2 <= TOL):
                 acc.violation("ctor_form", dict(case, via="gTAA"), e2, TOL, q)
+            # the array handed to the constructor stays the caller's: refilling it must not move the transform
+            if form in ("arr6", "col6", "arr3", "arr7", "mat4", "rpy6arr", "rpy6col", "rpy3arr"):
+                src = {"arr6": lambda: np.concatenate([pos, w]), "col6": lambda: np.concatenate([pos, w]).reshape(6, 1),
+                       "arr3": lambda: np.array(w), "mat4": lambda: se3.T_from(w, pos)}.get(form)
+                if src is not None:
+                    buf = src()
+                    tb = tm(buf)
+                    buf[...] = buf * 0.5 + 0.37
+                    e4 = max(float(np.abs(tb.gTM() - E).max()), float(np.abs(se3.T_from_taa(tb.gTAA().reshape(6)) - E).max())) / s
+                    if not (e4 <= TOL):
+                        acc.violation("ctor_form", dict(case, via="caller refilled its array"), e4, TOL, q)
             # reading then setting the quaternion is the identity
             t2 = t.copy()
             t2.setQuat(t2.getQuat())
@@ -176,6 +187,106 @@ def work_triples(p):
     return acc.result()
 
 
+QUERIES = ("inv", "gTM", "gTAA", "getQuat", "adjoint", "gRot", "gPos", "matmul", "rmatmul", "l2g", "g2l", "l2g_as_rel", "copy", "ctor_tm")
+WRITERS = ("sTAA", "sTM", "setQuat", "slice_rot", "slice_pos", "set0", "set4", "item2", "item5", "item_neg1")
+
+
+def _query(name, t, other, fsr, tm):
+    if name == "inv":
+        return t.inv().gTM()
+    if name == "gTM":
+        return t.gTM()
+    if name == "gTAA":
+        return se3.T_from_taa(t.gTAA().reshape(6))
+    if name == "getQuat":
+        from scipy.spatial.transform import Rotation as Rsc
+        return Rsc.from_quat(t.getQuat()).as_matrix()
+    if name == "adjoint":
+        return t.adjoint()
+    if name == "gRot":
+        return t.gRot()
+    if name == "gPos":
+        return np.asarray(t.gPos(), float).reshape(3)
+    if name == "matmul":
+        return (t @ other).gTM()
+    if name == "rmatmul":
+        return (other @ t).gTM()
+    if name == "l2g":
+        return fsr.localToGlobal(t, other).gTM()
+    if name == "g2l":
+        return fsr.globalToLocal(t, other).gTM()
+    if name == "l2g_as_rel":
+        return fsr.localToGlobal(other, t).gTM()
+    if name == "copy":
+        return t.copy().gTM()
+    if name == "ctor_tm":
+        return tm(t).gTM()
+    raise KeyError(name)
+
+
+def _write(name, t, pQ, wQ):
+    """applies the writer to t and returns the pose (as 4x4) the object must now have, given its six-vector before"""
+    from scipy.spatial.transform import Rotation as Rsc
+    taa = t.gTAA().reshape(6).copy()
+    if name == "sTAA":
+        t.sTAA(np.concatenate([pQ, wQ]).reshape(6, 1))
+        return se3.T_from(wQ, pQ)
+    if name == "sTM":
+        t.sTM(se3.T_from(wQ, pQ))
+        return se3.T_from(wQ, pQ)
+    if name == "setQuat":
+        t.setQuat(Rsc.from_rotvec(wQ).as_quat())
+        return se3.T_from(wQ, taa[:3])
+    if name == "slice_rot":
+        t[3:6] = np.array(wQ).reshape(3, 1)
+        return se3.T_from(wQ, taa[:3])
+    if name == "slice_pos":
+        t[0:3] = list(pQ)
+        return se3.T_from(taa[3:], pQ)
+    idx, val = {"set0": (0, pQ[0]), "set4": (4, wQ[1]), "item2": (2, pQ[2]), "item5": (5, wQ[2]), "item_neg1": (-1, wQ[2])}[name]
+    if name.startswith("set"):
+        t.set(idx, val)
+    else:
+        t[idx] = val
+    taa[idx] = val
+    return se3.T_from_taa(taa)
+
+
+def work_stale(p):
+    """Histories  query, write, query  on ONE object: every query is first asked (so that anything a query might
+    remember is remembered), then the pose is rewritten through one writer, then every query must answer for the NEW pose -
+    exactly as a freshly built transform of that pose does."""
+    from basic_robotics.general import tm, fsr
+    S = sub_palette(p["seed"], 12)
+    n = len(S)
+    acc = lattice.Acc()
+    cases = [(i, j, w) for i in range(n) for j in range(n) if i != j for w in WRITERS]
+    for i, j, wname in cases[p["lo"]:p["hi"]]:
+        (pP, wP), (pQ, wQ) = S[i], S[j]
+        case = {"part": "stale", "i": i, "j": j, "writer": wname, "from": [pP, wP], "to": [pQ, wQ]}
+        try:
+            t = tm(list(pP) + list(wP))
+            other = tm([0.4, -0.3, 0.2, 0.1, 0.5, -0.2])
+            for qn in QUERIES:
+                _query(qn, t, other, fsr, tm)
+            E = _write(wname, t, np.array(pQ, float), np.array(wQ, float))
+            fresh = tm(E.copy())
+            s = max(1.0, float(np.abs(E[:3, 3]).max()))
+            ang_q = {"pi_minus_angle": PI - se3.rangle(E[:3, :3])}
+            for qn in QUERIES:
+                got = _query(qn, t, other, fsr, tm)
+                want = _query(qn, fresh, other, fsr, tm)
+                e = float(np.abs(np.asarray(got, float) - np.asarray(want, float)).max()) / s
+                acc.resid("query_after_write", e)
+                if not (e <= TOL):
+                    acc.violation("query_after_write", dict(case, query=qn), e, TOL, ang_q)
+        except Exception as ex:
+            acc.violation("raised", case, repr(ex))
+        acc.evals += 1
+        acc.nontrivial_count += 1
+    return acc.result()
+
+
 def run(ctx):
     P = poses(ctx.seed)
     n = 60 if ctx.tier == "thorough" else 24
@@ -183,9 +294,12 @@ def run(ctx):
     with ctx.pool(8 if ctx.tier == "quick" else None) as pool:
         m1 = lattice.run(ctx, pool, MOD, "work_forms", len(P) * len(FORMS), part="forms")
         m2 = lattice.run(ctx, pool, MOD, "work_triples", len(S) ** 3, extra={"n": n}, part="triples")
-    lattice.fill(ctx, [("forms", m1), ("triples", m2)],
+        ns = len(sub_palette(ctx.seed, 12))
+        m3 = lattice.run(ctx, pool, MOD, "work_stale", ns * (ns - 1) * len(WRITERS), part="stale")
+    lattice.fill(ctx, [("forms", m1), ("triples", m2), ("stale", m3)],
                  "every palette pose (3 positions x 6 axes x 7 angles + generic + far) in each of %d constructor forms; all ordered triples "
-                 "of a %d-pose sub-palette (distinct by construction; non-trivial = three different poses)" % (len(FORMS), len(S)),
+                 "of a %d-pose sub-palette (distinct by construction; non-trivial = three different poses); query-write-query histories: "
+                 "all ordered pairs of a 12-pose sub-palette x %d writers x %d queries on one object against a fresh object of the written pose" % (len(FORMS), len(S), len(WRITERS), len(QUERIES)),
                  {"poses": len(P), "forms": len(FORMS), "triple_palette": len(S)})
     ctx.assumptions += ["rpy flag means R = Rx(a) Ry(b) Rz(c) (the property's reading); quaternions are scalar-last as scipy's",
                         "5e-6 absolute scaled by max(1,|p|) factors"]
@@ -201,6 +315,15 @@ def replay(rec):
         try:
             t, E = build(c["form"], P[0][0], P[0][1], tm)
             s = max(1.0, float(np.abs(P[0][0]).max()))
+            if c.get("via") == "caller refilled its array":
+                pos, w = P[0]
+                src = {"arr6": lambda: np.concatenate([pos, w]), "col6": lambda: np.concatenate([pos, w]).reshape(6, 1),
+                       "arr3": lambda: np.array(w), "mat4": lambda: se3.T_from(w, pos)}[c["form"]]
+                buf = src()
+                tb = tm(buf)
+                buf[...] = buf * 0.5 + 0.37
+                e4 = max(float(np.abs(tb.gTM() - E).max()), float(np.abs(se3.T_from_taa(tb.gTAA().reshape(6)) - E).max())) / s
+                return [{"clause": "ctor_form", "observed": e4}] if not (e4 <= TOL) else []
             if not (np.abs(t.gTM() - E).max() / s <= TOL and np.abs(se3.T_from_taa(t.gTAA().reshape(6)) - E).max() / s <= TOL):
                 acc.violation("ctor_form", c)
             t2 = t.copy()
@@ -210,6 +333,12 @@ def replay(rec):
         except Exception as ex:
             acc.violation("raised", c, repr(ex))
         return [v for v in acc.viols if v["clause"] == rec["clause"]]
+    if c["part"] == "stale":
+        S = sub_palette(p["seed"], 12)
+        cases = [(i, j, w) for i in range(len(S)) for j in range(len(S)) if i != j for w in WRITERS]
+        idx = cases.index((c["i"], c["j"], c["writer"]))
+        r = work_stale({"seed": p["seed"], "lo": idx, "hi": idx + 1})
+        return [v for v in r["viols"] if v["clause"] == rec["clause"] and v["case"].get("query") == c.get("query")]
     S = sub_palette(p["seed"], c["n"])
     n = len(S)
     i, j, k = c["ijk"]
